@@ -182,7 +182,7 @@ def digest(obj):
 def run_driver(script, payload, hashseed=0, timeout=1800, extra_env=None):
     """Run harness/drivers/<script> in /venv python with PERSIM_VERIF=1; JSON in on stdin, JSON out on stdout."""
     env = dict(os.environ)
-    env.update({"PERSIM_VERIF": "1", "PYTHONHASHSEED": str(hashseed), "MPLBACKEND": "Agg", "PYTHONPATH": "/repo:" + ROOT,
+    env.update({"PERSIM_VERIF": "1", "PYTHONHASHSEED": str(hashseed), "MPLBACKEND": "Agg", "PYTHONPATH": os.environ.get("VERIF_REPO", "/repo") + ":" + ROOT,
                 "PYTHONWARNINGS": "default", "OMP_NUM_THREADS": "1", "OPENBLAS_NUM_THREADS": "1"})
     env.update(extra_env or {})
     p = subprocess.run([VENV_PY, "-W", "ignore::SyntaxWarning", os.path.join(ROOT, "harness", "drivers", script)],
